@@ -190,6 +190,161 @@ def register(gen, T):
                    f"def offsetsModifierIsInner : Bool := {'true' if modifier_inner else 'false'}\n")
         return "".join(out)
 
+    # ------------------------------------------------------------------------------------------
+    # LayoutSites: where could a structure be the element type of a buffer access (inventory taken from the
+    # type checker's tables, independent of layout_checker.rs), and the shape of check_layout's collection loops
+    # ------------------------------------------------------------------------------------------
+    @gen("LayoutSites")
+    def gen_layout_sites():
+        ir_types = T.src("ir/src/ir_types.rs")
+        idata = T.src("ir/src/intrinsic_data.rs")
+        lc = T.src("ir/src/layout_checker.rs")
+        typer_types = T.src("typer/src/typer/types.rs")
+        out = [T.header("LayoutSites", ["ir/src/ir_types.rs", "ir/src/intrinsic_data.rs", "typer/src/typer/types.rs",
+                                        "ir/src/layout_checker.rs", "ir/src/ir_module.rs", "src/compile.rs"])]
+
+        # ---- ObjectType variants and their payload
+        objs = []
+        for v, payload in enum_variants(ir_types, "ObjectType"):
+            pl = squeeze(payload or "")
+            objs.append((v, pl == "(TypeId)"))
+        out.append("/-- every `ObjectType` variant; `true` = it carries an element `TypeId` -/\n"
+                   "def objectTypes : List (String × Bool) := " +
+                   T.lean_list(f"({T.lean_str(v)}, {'true' if e else 'false'})" for v, e in objs) + "\n\n")
+
+        # ---- parse_object_type: which object type names take their element through get_structured_type
+        pb = fn_body(typer_types, "parse_object_type")
+        structured = re.findall(r'"([A-Za-z0-9]+)"\s*=>\s*Some\(\s*ir::TypeLayer::Object\(\s*ir::ObjectType::([A-Za-z0-9]+)\(\s*'
+                                r'get_structured_type\(', pb)
+        for name, variant in structured:
+            if name != variant:
+                raise ExtractError(f"parse_object_type: {name!r} constructs ObjectType::{variant}")
+        if not structured:
+            raise ExtractError("parse_object_type: table not recognised")
+        gs = fn_body(pb, "get_structured_type")
+        if "ir::TypeLayer::Struct(_)" not in gs:
+            raise ExtractError("get_structured_type no longer admits structs")
+        gd = fn_body(pb, "get_data_type")
+        if "Struct" in gd:
+            raise ExtractError("get_data_type admits structs")
+        out.append("/-- object types whose element type may be a structure (`get_structured_type`) -/\n"
+                   "def structElementObjects : List String := " +
+                   T.lean_list(T.lean_str(n) for n, _ in structured) + "\n\n")
+
+        # ---- method tables: which methods are templated on a type `T`
+        gm = fn_body(idata, "get_methods")
+        _, arms_text, _ = first_match(gm, None, 0)
+        table_of = {}
+        for pats, guard, result in match_arms(arms_text):
+            if pats == ["_"]:
+                continue
+            for pat in pats:
+                mm = re.fullmatch(r"ObjectType::([A-Za-z0-9]+)(\(_\))?", pat.strip())
+                if not mm or not re.fullmatch(r"[A-Z0-9_]+", result.strip()):
+                    raise ExtractError(f"get_methods: arm {pat!r} => {result!r}")
+                table_of[mm.group(1)] = result.strip()
+        typed = []
+        n_methods = 0
+        for obj, table in table_of.items():
+            mt = re.search(r"const\s+" + table + r"\s*:\s*&\[IntrinsicDefinition\]\s*=\s*&\[", idata)
+            if not mt:
+                raise ExtractError(f"method table {table} not found")
+            body = idata[mt.end() - 1: matching(idata, mt.end() - 1) + 1]
+            for em in re.finditer(r"f!\s*\{", body):
+                j = matching(body, em.end() - 1)
+                entry = body[em.end():j]
+                sm = re.fullmatch(r"\s*([A-Za-z0-9_]+)\s*\b([A-Za-z0-9_]*)\s*\((.*)\)\s*=>\s*([A-Za-z0-9_]+)\s*(\|.*)?", entry, re.S)
+                if not sm:
+                    raise ExtractError(f"{table}: entry {normws(entry)!r} not understood")
+                n_methods += 1
+                ret, name, params, intrinsic = sm.group(1), sm.group(2), sm.group(3), sm.group(4)
+                ptypes = [x.strip().split()[-1] for x in params.split(",") if x.strip()]
+                if ret == "T" or "T" in ptypes:
+                    typed.append((obj, name, intrinsic, len(ptypes)))
+        out.append(f"/-- number of object methods in the tables of `get_methods` -/\ndef methodCount : Nat := {n_methods}\n\n")
+        out.append("/-- the object methods with the function template argument `T` in their signature:\n"
+                   "    (object type, method, intrinsic, number of parameters) -/\n"
+                   "def typedMethods : List (String × String × String × Nat) := " +
+                   T.lean_list(f"({T.lean_str(o)}, {T.lean_str(n)}, {T.lean_str(i)}, {k})" for o, n, i, k in typed) + "\n\n")
+
+        # ---- the shape of check_layout's two collection loops (everything but the two lists is fixed text)
+        cb = squeeze(fn_body(lc, "check_layout"))
+        want_head = "letmuttypes_to_check=Vec::new();letmuttypes_seen=HashSet::new();"
+        want_globals = ("forglobalin&module.global_registry{"
+                        "letty=module.type_registry.remove_modifier(global.type_id);"
+                        "lettyl=module.type_registry.get_type_layer(ty);"
+                        "leto=matchtyl{TypeLayer::Object(o)=>o,_=>continue,};"
+                        "matcho{@OBJS@=>{iftypes_seen.insert(st){types_to_check.push((st,global.name.location));}}_=>{}}}")
+        want_fns = ("foriin0..module.function_registry.get_function_count(){letid=FunctionId(i);"
+                    "letintrinsic_data=matchmodule.function_registry.get_intrinsic_data(id){"
+                    "Some(intrinsic_data)=>intrinsic_data,None=>continue,};"
+                    "if!matches!(intrinsic_data,@INTR@){continue;}"
+                    "lettemplate_data=matchmodule.function_registry.get_template_instantiation_data(id){"
+                    "Some(template_data)=>template_data,None=>continue,};"
+                    "iftemplate_data.template_args.len()!=1{panic!(\"invalid{:?}intrinsic\",intrinsic_data);}"
+                    "letty=matchtemplate_data.template_args[0]{TypeOrConstant::Type(ty)=>ty,"
+                    "TypeOrConstant::Constant(_)=>panic!(\"invalid{:?}intrinsic\",intrinsic_data),};"
+                    "iftypes_seen.insert(ty){types_to_check.push((ty,module.get_type_location(ty)));}}")
+        def pattern(template):
+            parts = re.split(r"@[A-Z]+@", template)
+            return "(.*?)".join(re.escape(x) for x in parts)
+        rx = re.compile("^" + re.escape(want_head) + pattern(want_globals) + pattern(want_fns) +
+                        r"for\(ty,loc\)intypes_to_check\{")
+        mm = rx.match(cb)
+        if not mm:
+            raise ExtractError("check_layout: the collection loops changed (globals: remove_modifier, Object test, "
+                               "types_seen; functions: intrinsic list, template data, one type argument)")
+        if not re.fullmatch(r"ObjectType::[A-Za-z0-9]+\(st\)(\|ObjectType::[A-Za-z0-9]+\(st\))*", mm.group(1)):
+            raise ExtractError("check_layout: object patterns changed")
+        if not re.fullmatch(r"Intrinsic::[A-Za-z0-9]+(\|Intrinsic::[A-Za-z0-9]+)*", mm.group(2)):
+            raise ExtractError("check_layout: intrinsic patterns changed")
+        gloc = fn_body(T.src("ir/src/ir_module.rs"), "get_type_location")
+        want_loc = ("letid=self.type_registry.remove_modifier(id);matchself.type_registry.get_type_layer(id){"
+                    "TypeLayer::Struct(id)=>{assert!(id.0<self.struct_registry.lenasu32);"
+                    "self.struct_registry[id.0asusize].name.location}_=>SourceLocation::UNKNOWN,}")
+        if squeeze(gloc).replace("len()", "len") != want_loc:
+            raise ExtractError("get_type_location changed")
+        out.append("/-- the global loop looks below `Modifier` layers only (`remove_modifier`), then requires an `Object` layer -/\n"
+                   "def globalLoopStripsModifier : Bool := true\n"
+                   "/-- it does not look below `Array` layers -/\n"
+                   "def globalLoopStripsArray : Bool := false\n"
+                   "/-- both loops skip a type id that was collected before (`types_seen`) -/\n"
+                   "def dedupByTypeId : Bool := true\n"
+                   "/-- the function loop needs template instantiation data with exactly one type argument -/\n"
+                   "def fnLoopOneTypeArgument : Bool := true\n"
+                   "/-- a typed load / store is located at the struct's definition; other types have no location -/\n"
+                   "def fnLocationIsStructDefinition : Bool := true\n")
+        # ---- compile(): when is check_layout run
+        comp = squeeze(fn_body(T.src("src/compile.rs"), "compile"))
+        guard_stmt = ("ifargs.validate_layout_consistency&&letErr(err)=ir::layout_checker::check_layout(&ir)"
+                      "{returnErr(CompileError::Text(format!(\"{}\",err.display(&source_manager))));}")
+        at = comp.find(guard_stmt)
+        if at < 0 or comp.count("check_layout") != 1:
+            raise ExtractError("compile(): the layout validation statement changed")
+        if not (0 <= comp.find("letir=matchtyper::type_check(&pl)") < at < comp.find("letbinding_params=matchargs.target")):
+            raise ExtractError("compile(): layout validation is no longer between type checking and target selection")
+        out.append("/-- `compile` runs `check_layout` on the type-checked module iff this flag is set, before anything\n"
+                   "    depends on the target or the pipeline mode, and fails with its message -/\n"
+                   "def validationGuard : String := \"args.validate_layout_consistency\"\n"
+                   "def validationBeforeTargetSelection : Bool := true\n\n")
+        # ---- the diagnostics
+        pr = squeeze(impl_fn_body(lc, r"CompileError\s+for\s+LayoutError", "print"))
+        mu = re.search(r'LayoutError::UnknownLayout\(loc\)=>w\.write_message\(&\|f\|write!\(f,"([^"]*)"\),\*loc,Severity::Error,?\)', pr)
+        mm2 = re.search(r'LayoutError::MismatchedLayout\(loc,lhs,rhs\)=>w\.write_message\(&\|f\|\{write!\(f,"([^"]*)",([a-z.,]*?),?\)\},\*loc,Severity::Error,?\)', pr)
+        if not mu or not mm2:
+            raise ExtractError("LayoutError::print changed")
+        src_pr = impl_fn_body(lc, r"CompileError\s+for\s+LayoutError", "print")
+        fm = re.findall(r'"((?:[^"\\]|\\.)*)"', src_pr)
+        if len(fm) != 2:
+            raise ExtractError("LayoutError::print: expected two format strings")
+        out.append("/-- the two diagnostics of `LayoutError::print` (format string, arguments) -/\n"
+                   f"def unknownMessage : String := {T.lean_str(fm[0])}\n"
+                   f"def mismatchMessage : String := {T.lean_str(fm[1])}\n"
+                   "def mismatchArgs : List String := " +
+                   T.lean_list(T.lean_str(a) for a in mm2.group(2).split(",") if a) + "\n")
+        out.append(T.footer("LayoutSites"))
+        return "".join(out)
+
     @gen("LayoutTables")
     def gen_layout_tables():
         ir_types = T.src("ir/src/ir_types.rs")
